@@ -4,14 +4,14 @@ from hypothesis import strategies as st
 
 from vlib.core import Outcome, fail, sut, is_raised
 from vlib import typegen as tg
-from vlib import mat
+from vlib import mat, assign
 from vlib import placement as pl
 from checks import c01
 
 ID = "C06"
 LEVEL = "exploration"
 RULE = (
-    "C01 case space plus a short list of fitting leaf writes and an optional buffer growth. For the root and for every "
+    "C01 case space plus a short list of fitting leaf writes, up to two whole-element assignments (nested struct / array or the root through _update, via handle, view or a mix) and an optional buffer growth. For the root and for every "
     "nested compound reached through fields, items and references, the handle chain (starting at the object the "
     "constructor returned) is compared with a view chain started from T._from_buffer(buffer, offset) and with views "
     "of views: equal value at every index (both equal to the model), equal _shape, _strides (as int tuples), _size "
@@ -28,7 +28,7 @@ def budget(tier):
 
 
 def essential_labels(tier):
-    return ["nd_array_of_dynamic_items", "non_C_order", "struct_2plus_dynamic_fields", "write_via_view", "write_via_handle", "grown", "write_after_growth"]
+    return ["nd_array_of_dynamic_items", "non_C_order", "struct_2plus_dynamic_fields", "write_via_view", "write_via_handle", "grown", "write_after_growth", "whole_element_write"]
 
 
 write_spec = st.fixed_dictionaries(
@@ -47,6 +47,8 @@ def cases(draw, tier):
     c = draw(c01.cases(tier))
     c["writes"] = draw(st.lists(write_spec, max_size=4))
     c["grow"] = draw(st.sampled_from([0, 0, 1, 8, 1000]))
+    # whole-element assignments (nested struct / array, or the root through _update) through the handle, a view or a mix
+    c["cwrites"] = draw(st.lists(assign.op_specs, max_size=2)) if draw(st.integers(0, 2)) == 0 else []
     return c
 
 
@@ -184,6 +186,18 @@ def run_case(case):
         if r:
             r.labels = sorted(labels)
             return r
+    for op in case.get("cwrites", []):
+        r = assign.apply_op(dict(op, kind="compound"), obj, node, expected, labels)
+        if isinstance(r, tuple) and r[0] == "skip":
+            continue
+        if is_raised(r):
+            return fail("write_raised", f"whole-element assignment via {op['via']}: {r}", "compound|" + r.key, labels)
+        labels.add("whole_element_write")
+        r = compare_chains(obj, view, node, expected, labels, f"after whole-element assignment at {r[1]} via {op['via']}")
+        if r:
+            r.labels = sorted(labels)
+            return r
+    leaves = mat.leaf_paths(spec, expected)  # whole-element assignments may have nulled references
     if case["grow"]:
         g = sut(obj._buffer.grow, case["grow"])
         if is_raised(g):
